@@ -42,7 +42,15 @@ func VerifH_C15_k8sChunks() {
 	twin := vf.Param("twin", 0) == 1
 	p := verifAction(maxSize, cutOff)
 	run := ""
+	type passedEvent struct {
+		root *insaneJSON.Root
+		want string
+	}
+	var passed []passedEvent // events handed on earlier must not change while later chunks are buffered
 	for i := 0; i < K; i++ {
+		for _, pe := range passed {
+			vf.Assert(string(pe.root.Dig("log").AppendEscapedString(nil)) == pe.want, "passed-event-unchanged-by-later-chunks")
+		}
 		txt := verifChunks[vf.Choose("chunk", len(verifChunks))]
 		isEnd := vf.Choose("ends-line", 2) == 1
 		if isEnd {
@@ -95,7 +103,11 @@ func VerifH_C15_k8sChunks() {
 		out := root.EncodeToString()
 		chk := insaneJSON.Spawn()
 		vf.Assert(chk.DecodeString(out) == nil, "output-is-valid-json")
+		passed = append(passed, passedEvent{root, want})
 		run = ""
+	}
+	for _, pe := range passed {
+		vf.Assert(string(pe.root.Dig("log").AppendEscapedString(nil)) == pe.want, "passed-event-unchanged-by-later-chunks")
 	}
 }
 
